@@ -129,7 +129,8 @@ def runSyncDestRequest (toks : List String) : String :=
   | some (root, fs, ls) =>
     let r := pathComps root
     let src : FPath → Option SEntry := fun p => ls.lookup p
-    match syncDest fs r src ls (listBelow fs r) with
+    -- the destination listing is the model's own (`listNodes`, the object of C17_listing_exact_fs / C01_mirror_fs_own_listing)
+    match syncDest fs r src ls ((listNodes fs (fs.nodes.length + 1) r).map fun e => (e.1.drop r.length, e.2)) with
     | .ok fs' => s!"ok fs=[{fs'.render}]"
     | .err => "err"
     | .escape => "escape"
